@@ -129,7 +129,8 @@ fn effective_len<T: IntLike>(p: &Probe, natural: usize, args: &[T]) -> usize {
 
 fn probe_eval<T: IntLike>(p: &Probe, base: i64, x: &DVector<T>, args: &[T]) -> DVector<T> {
     let l = effective_len(p, x.len(), args);
-    let mut s = p.code * pow(base, args.len() + 1);
+    // codes >= 100: the value depends on the whole independent variable (its length), not element-wise
+    let mut s = p.code * pow(base, args.len() + 1) + if p.code >= 100 { x.len() as i64 } else { 0 };
     for (t, a) in args.iter().enumerate() {
         s += a.to_i() * pow(base, t + 1);
     }
@@ -499,6 +500,8 @@ fn alphabet(names: &[String]) -> Vec<MCall> {
         len: None,
     }));
     al.push(MCall::X(3));
+    // an independent variable of length zero is a supplied one
+    al.push(MCall::X(0));
     al.push(MCall::Init((0..p).map(|i| i as i64 + 1).collect()));
     al.push(MCall::Init((0..p + 1).map(|i| i as i64 + 1).collect()));
     if p > 0 {
@@ -888,6 +891,28 @@ pub fn stream_model(out: &mut Out, seed: u64, thorough: bool) {
             } else {
                 emit_case::<f64>(out, &names, &calls, &ops, 8, "arity");
             }
+        }
+    }
+    // (d0) LONG independent variables (4097 / 5000 / 10000 samples) with functions and derivatives whose
+    //      values depend on the WHOLE vector (probe codes >= 100 add its length): a function sees the
+    //      complete independent variable in one call
+    for (qi, nlong) in [4097usize, 5000, 10000].iter().enumerate() {
+        let names = vec![s("a"), s("b")];
+        let calls = vec![
+            MCall::Invariant(Probe { arity: 0, code: 5, len: None }),
+            MCall::Function(vec![s("b"), s("a")], Probe { arity: 2, code: 101, len: None }),
+            MCall::Deriv(s("a"), Probe { arity: 2, code: 102, len: None }),
+            MCall::Deriv(s("b"), Probe { arity: 2, code: 103, len: None }),
+            MCall::Function(vec![s("a")], Probe { arity: 1, code: 3, len: None }),
+            MCall::Deriv(s("a"), Probe { arity: 1, code: 104, len: None }),
+            MCall::X(*nlong),
+            MCall::Init(vec![2, 3]),
+        ];
+        let ops = vec![MOp::Params, MOp::Eval, MOp::Deriv(0), MOp::Deriv(1), MOp::Set(vec![5, 1]), MOp::Eval, MOp::Deriv(0)];
+        if qi % 2 == 0 {
+            emit_case::<f64>(out, &names, &calls, &ops, 8, "longx");
+        } else {
+            emit_case::<i64>(out, &names, &calls, &ops, 8, "longx");
         }
     }
     // (d) LARGE models (size thresholds: word-sized bit masks, small-vector fast paths, hash-map
